@@ -133,6 +133,17 @@ func ewVals(d ref.DT, n int, vs string) (a, b []interface{}, s interface{}) {
 			b[i] = ref.FromFloat(d, bv[i%len(bv)])
 		}
 		s = ref.FromFloat(d, 98)
+	case "edges@0", "edges@1", "edges@2", "edges@3", "edges@4", "edges@5", "edges@6", "edges@7", "edges@8", "edges@9", "edges@10", "edges@11", "edges@12":
+		// the edge operands against each edge value as the SCALAR (the extremes of the type among them: kernels that
+		// rewrite s <= x as s < x+1 and the like go wrong exactly there)
+		e := edgeVals(d)
+		for i := 0; i < n; i++ {
+			a[i] = e[i%len(e)]
+			b[i] = e[(i*5+3)%len(e)]
+		}
+		k := 0
+		fmt.Sscanf(vs[6:], "%d", &k)
+		s = e[k%len(e)]
 	case "edge2":
 		e := edgeVals(d)
 		for i := 0; i < n; i++ {
